@@ -19,6 +19,10 @@ def gen_project(rng, stream="structured", n_tasks=None, facilities=None, fs_only
         return gen_pairs_project(rng)
     if stream == "crossing":
         return gen_crossing_project(rng)
+    if stream == "conveyor":
+        return gen_conveyor_project(rng)
+    if stream == "autoabs":
+        return gen_autoabs_project(rng)
     nt = n_tasks if n_tasks is not None else rng.choice([1, 2, 2, 3, 3, 4, 4, 5, 6, 7, 8])
     if stream == "edge" and rng.random() < 0.3:
         nt = 1
@@ -153,8 +157,19 @@ def gen_project(rng, stream="structured", n_tasks=None, facilities=None, fs_only
                 t["need_fac"] = True
         if not t["auto"] and rng.random() < 0.1 and nwork:
             t["fixw"] = sorted(rng.sample(range(nwork), rng.choice([1, min(2, nwork)])))
+        elif not t["auto"] and rng.random() < 0.03:
+            t["fixw"] = []          # an empty fixed-ID list admits nobody
         if t["need_fac"] and rng.random() < 0.1 and nfac:
             t["fixf"] = sorted(rng.sample(range(nfac), 1))
+        elif t["need_fac"] and rng.random() < 0.03:
+            t["fixf"] = []
+    # parent links of teams and workplaces (organisation chart only: no effect on a simulation)
+    for i in range(1, len(teams)):
+        if rng.random() < 0.4:
+            teams[i]["parent"] = rng.randrange(i)
+    for i in range(1, len(wps)):
+        if rng.random() < 0.4:
+            wps[i]["parent"] = rng.randrange(i)
     case = {"tasks": tasks, "edges": edges, "comps": comps, "teams": teams, "wps": wps, "unit": 60,
             "rank": rng.sample(range(8), 8)[:nt] if nt <= 8 else None,
             "crank": rng.sample(range(8), 8)[:nc] if nc <= 8 else None}
@@ -222,7 +237,7 @@ def gen_crossing_project(rng):
             "rank": rng.sample(range(8), 8)[:nt], "crank": []}
 
 
-def gen_sim_op(rng, case, absences=True):
+def gen_sim_op(rng, case, absences=True, vary_init=False):
     ab = []
     if absences and rng.random() < 0.45:
         ab = [rng.randrange(0, 14) for _ in range(rng.choice([1, 2, 3, 4]))]
@@ -230,8 +245,11 @@ def gen_sim_op(rng, case, absences=True):
             ab.append(0)
         if rng.random() < 0.2:
             ab.append(rng.randrange(30, 60))
+    # initialize_log_info=False on a never simulated project: no log to keep, but the
+    # state initialisation runs without its log-dependent parts
     return {"op": "simulate", "rule": rng.randrange(0, 9), "abs": ab, "auto_abs": rng.random() < 0.4,
-            "init_state": True, "init_log": True, "max_time": rng.choice([40, 40, 40, 60, 6, 12])}
+            "init_state": True, "init_log": (rng.random() >= 0.08) if vary_init else True,
+            "max_time": rng.choice([40, 40, 40, 60, 6, 12])}
 
 
 def simplify_feasible(rng, case):
@@ -250,3 +268,70 @@ def simplify_feasible(rng, case):
             w["skills"][str(t["name"])] = "1/1"
         w["solo"] = False
     return case
+
+
+def gen_conveyor_project(rng):
+    """directed family: a nested product whose sub-component is first placed on
+    its own (its own task runs earlier) and whose assembly then has to choose
+    between workplaces with input-workplace (conveyor) lists: the condition
+    must look at every component of the assembly, and the whole assembly moves"""
+    nwp = rng.choice([3, 4, 4])
+    nsub = rng.choice([1, 1, 2])
+    comps = [{"size": qs(rng.choice([Fraction(1, 2), Fraction(1)])), "children": []} for _ in range(nsub)]
+    comps.append({"size": "1/1", "children": list(range(nsub))})
+    top = nsub
+    if rng.random() < 0.3:                      # one more level
+        comps.append({"size": "1/2", "children": [top]})
+        top = nsub + 1
+    tasks, edges = [], []
+    for k in range(nsub):
+        tasks.append({"name": 0, "work": qs(rng.choice([Fraction(1), Fraction(2)])), "progress": "0/1", "auto": False, "rate": "1/1",
+                      "need_fac": rng.random() < 0.5, "comp": k, "teams": [0], "wps": [rng.randrange(nwp)],
+                      "fixw": None, "fixf": None, "due": -1, "wrule": -1, "frule": 0, "prule": rng.choice([0, 1])})
+    tasks.append({"name": 0, "work": qs(rng.choice([Fraction(1), Fraction(2), Fraction(3)])), "progress": "0/1", "auto": False, "rate": "1/1",
+                  "need_fac": rng.random() < 0.5, "comp": top, "teams": [0],
+                  "wps": rng.sample(range(nwp), rng.choice([2, 2, min(3, nwp)])),
+                  "fixw": None, "fixf": None, "due": -1, "wrule": -1, "frule": 0, "prule": rng.choice([0, 0, 1])})
+    for k in range(nsub):
+        if rng.random() < 0.8:
+            edges.append([k, nsub, rng.choice([0, 0, 0, 1])])
+    wps = []
+    for pi in range(nwp):
+        wps.append({"cap": qs(rng.choice([Fraction(4), Fraction(3), Fraction(5, 2)])), "inputs": [],
+                    "facs": [{"skills": {"0": "1/1"}, "cost": "1/1", "solo": False, "abs": [], "name": pi}]})
+    for pi in range(nwp):
+        if rng.random() < 0.6:
+            others = [x for x in range(nwp) if x != pi]
+            wps[pi]["inputs"] = rng.sample(others, rng.choice([1, 1, min(2, len(others))]))
+    nw = rng.choice([2, 3])
+    ws = [{"skills": {"0": "1/1"}, "fskills": {str(f): "1/1" for f in range(nwp)}, "cost": "1/1", "solo": False,
+           "abs": [], "mainwp": None, "name": j} for j in range(nw)]
+    nt = len(tasks)
+    return {"tasks": tasks, "edges": edges, "comps": comps, "teams": [{"workers": ws}], "wps": wps, "unit": 60,
+            "rank": rng.sample(range(8), 8)[:nt], "crank": rng.sample(range(8), 8)[:len(comps)]}
+
+
+def gen_autoabs_project(rng):
+    """directed family: an automatic task bound to a component becomes READY
+    while its component is already placed (an earlier task of the same
+    component worked there); the ops generator puts a project-wide absence on
+    that very step with perform_auto_task_while_absence_time on or off"""
+    w0 = rng.choice([1, 2, 2, 3])
+    tasks = [{"name": 0, "work": qs(Fraction(w0)), "progress": "0/1", "auto": False, "rate": "1/1",
+              "need_fac": rng.random() < 0.5, "comp": 0, "teams": [0], "wps": [0],
+              "fixw": None, "fixf": None, "due": -1, "wrule": -1, "frule": 0, "prule": 0},
+             {"name": 1, "work": qs(rng.choice([Fraction(1), Fraction(2), Fraction(3, 2)])), "progress": "0/1", "auto": True,
+              "rate": qs(rng.choice([Fraction(1), Fraction(1, 2)])),
+              "need_fac": False, "comp": rng.choice([0, 0, 0, None]), "teams": [], "wps": [0] if rng.random() < 0.85 else [],
+              "fixw": None, "fixf": None, "due": -1, "wrule": -1, "frule": 0, "prule": 0}]
+    edges = [[0, 1, rng.choice([0, 0, 0, 1])]]
+    if rng.random() < 0.4:
+        tasks.append({"name": 0, "work": "2/1", "progress": "0/1", "auto": False, "rate": "1/1", "need_fac": False, "comp": 0,
+                      "teams": [0], "wps": [0], "fixw": None, "fixf": None, "due": -1, "wrule": -1, "frule": 0, "prule": 0})
+        edges.append([1, 2, rng.choice([0, 2, 3])])
+    comps = [{"size": "1/1", "children": []}]
+    wps = [{"cap": "2/1", "inputs": [], "facs": [{"skills": {"0": "1/1"}, "cost": "1/1", "solo": False, "abs": [], "name": 0}]}]
+    ws = [{"skills": {"0": "1/1"}, "fskills": {"0": "1/1"}, "cost": "1/1", "solo": False, "abs": [], "mainwp": None, "name": 0}]
+    nt = len(tasks)
+    return {"tasks": tasks, "edges": edges, "comps": comps, "teams": [{"workers": ws}], "wps": wps, "unit": 60,
+            "rank": rng.sample(range(8), 8)[:nt], "crank": [0], "_ready_step": w0}
